@@ -44,7 +44,7 @@ STATUSES = ('todo', 'in_progress', 'done', 'error', 'skipped')
 
 
 def gen_url(tape):
-    k = tape.draw(14, 'url.kind')
+    k = tape.draw(15, 'url.kind')
     host = HOSTS[tape.draw(len(HOSTS), 'url.host')]
     if k < 9:
         return 'http://%s/p%d' % (host, tape.draw(8, 'url.n'))
@@ -56,6 +56,8 @@ def gen_url(tape):
         return 'ftp://%s/dir/file%d.txt' % (host, tape.draw(3, 'url.n'))
     if k == 12:
         return 'http://%s/%s' % (host, 'l' * (300 + tape.draw(3, 'url.n')))
+    if k == 13:
+        return 'http://%s/P%d' % (host, tape.draw(4, 'url.n'))          # differs from /p<n> by letter case only: a distinct URL
     return ('', 'http://[bad', 'not a url', 'http://')[tape.draw(4, 'url.bad')]
 
 
